@@ -19,8 +19,8 @@ RULE = ("case = statement list (cpu/segment/org/emit(list|dup)/reserve/phase/end
 ASSUMPTIONS = [
     "bytes of one granule are stored little endian in the code file for PIC16C84, TMS320C25 and TMS320C30 "
     "(as P2HEX's INHX8M description and the pinned tree agree)",
-    "after every CPU switch the generator sets segment and ORG explicitly (the state of the counters "
-    "across CPU switches is C10's subject)",
+    "after a CPU switch the generator either sets segment and ORG explicitly or (CODE active and used) goes on "
+    "without ORG: the CODE program counter then continues at its numeric value (observed behaviour of the pinned tree)",
     "record *splitting* policy is not asserted, only well-formedness and the exact byte sequence",
 ]
 
@@ -65,16 +65,26 @@ def _sizes(d, big_ok):
 @composite
 def strategy_(d, tier):
     items = []
-    nspans = d.weighted([(5, 1), (3, 2), (1, 3)])
+    pcs = {}
+    nspans = d.weighted([(5, 1), (3, 2), (2, 3)])
     tnames = list(T)
     want_big = d.bool(0.12 if tier == "quick" else 0.2)
     for si in range(nspans):
         tn = d.choice(BIG_OK) if (want_big and si == 0) else d.choice(tnames)
         t = T[tn]
-        items.append(["cpu", tn])
         segs = list(t["segs"])
-        pcs = {}
-        seg = None
+        carry = pcs.get("code") if si else None
+        if carry is not None and carry + 64 < t["segs"]["code"][3] and d.bool(0.5):
+            # CPU switch while CODE is the active, used segment and no ORG follows: the program counter goes on
+            # (observed behaviour; the bytes of the new target must open a record of their own)
+            items.append(["seg", "code"])
+            items.append(["cpukeep", tn])
+            pcs = {"code": carry}
+            seg = "code"
+        else:
+            items.append(["cpu", tn])
+            pcs = {}
+            seg = None
         nsteps = d.int(2, 14)
         total = 0
         for k in range(nsteps):
@@ -159,7 +169,7 @@ def render_and_model(case):
     depth = 0
     for it in case["items"]:
         op = it[0]
-        if op in ("cpu", "seg", "org", "end") and depth:
+        if op in ("cpu", "cpukeep", "seg", "org", "end") and depth:
             # ORG inside PHASE takes a phased address (C10's subject): leave all phases first
             lines += ["\tdephase"] * depth
             depth = 0
@@ -171,6 +181,16 @@ def render_and_model(case):
             seg = None
             info["switches"] += 1
             info["cpus"].append(it[1])
+            run = 0
+        elif op == "cpukeep":
+            t = T[it[1]]
+            lines.append("\tcpu %s" % t["cpu"])
+            lines += t.get("pre", [])
+            pcs = {"code": pcs["code"]}
+            seg = "code"
+            info["switches"] += 1
+            info["cpus"].append(it[1])
+            info["cpukeep"] = True
             run = 0
         elif op == "seg":
             seg = it[1]
@@ -243,6 +263,8 @@ def execute(case):
         nt.append("res-between")
     if info["back_org"]:
         nt.append("back-org")
+    if info.get("cpukeep"):
+        nt.append("cpu-switch-without-org")
     classes += nt
     key = None
     if nt:
